@@ -70,3 +70,19 @@ def terms_for(fam, a, T, R=None):
     if fam == 'shomate':
         return shomate_terms(a, T, R)
     raise ValueError(fam)
+
+
+def containing(fam, segs, T):
+    """Indices of the segments (ascending list of (T_lo, T_hi)) allowed to answer at T.
+
+    NASA-7: the lower segment strictly below T_mid, the upper one from T_mid on (nothing outside
+    [T_low, T_high]); NASA-9: every segment whose closed interval contains T (two on a shared
+    boundary, none in a gap or outside); Shomate: its single segment.
+    """
+    T = float(T)
+    if fam == 'nasa7':
+        lo, mid, hi = float(segs[0][0]), float(segs[0][1]), float(segs[1][1])
+        if T < lo or T > hi:
+            return []
+        return [1] if T >= mid else [0]
+    return [k for k, (lo, hi) in enumerate(segs) if float(lo) <= T <= float(hi)]
